@@ -44,6 +44,13 @@ ASSUMPTIONS = [
     "family's business); tags are distinct within a row",
 ]
 MODELLED_NOT_VERIFIED = [
+    "C06: the protocol dictionary the connection is constructed with is NOT a parameter of the session model (only its "
+    "beginstring is, via Generated.Proto); that _process_resend behaves the same with FIXProtocol44, a custom "
+    "FIXProtocolBase subclass without session_message_types and a beginstring-only subclass is covered by the "
+    "correspondence and the oracle only (every enumeration rotates through the three)",
+    "C06: magnitudes - the model and the theorems are over unbounded integers (any counter, any bound, Hyp.fits: last sent "
+    "number <= sys.maxsize); the correspondence places short journals at 16 round constants up to sys.maxsize with "
+    "BeginSeqNo / EndSeqNo hitting them exactly and +-1; numbers beyond SQLite's 64 bits as journal keys are C13's business",
     "C06: the session model keeps the journal of ONE session; that journaler calls made with one session's object leave "
     "all other sessions of a shared journal untouched is proved for the multi-session journal model of C13 "
     "(journal_calls_leave_other_sessions) and checked on the real shared Journaler by the oracle every run; that "
@@ -102,8 +109,9 @@ def make_abs(case):
     """case = {journal:[letters], b, e, state, base, sr, role, k} -> (AbsConn, sr spec, declined numbers)"""
     J, base = case["journal"], case.get("base", 0)
     n = len(J)
+    nin = case.get("nin", 5)
     a = S.AbsConn(state=case.get("state", 17), role=case.get("role", 1), was_active=True, sender="S", target="T",
-                  next_in=5, next_out=base + n + 1, sock=True, stored_out=base + n, stored_in=4)
+                  next_in=nin, next_out=base + n + 1, sock=True, stored_out=base + n, stored_in=nin - 1)
     if a.state == 12:
         a.max_resend = a.next_in + 4
     rows, declined = [], set()
@@ -115,7 +123,7 @@ def make_abs(case):
         if letter == "x":
             declined.add(num)
     a.out_rows = rows
-    a.in_rows = [S.row("T", "S", "0", (), 3, T0), S.row("T", "S", "D", ((11, "in4"),), 4, T0)]
+    a.in_rows = [S.row("T", "S", "0", (), nin - 2, T0), S.row("T", "S", "D", ((11, "in4"),), nin - 1, T0)]
     mode = case.get("sr", "letters")
     if mode == "none":
         sr, declined = "none", {r[0] for r in rows}
@@ -126,8 +134,46 @@ def make_abs(case):
     return a, sr, declined
 
 
-def request(a, b, e, now):
-    return ("recv", now, S.inbound(a, "2", [(7, str(b)), (16, str(e))], now_ms=now))
+def spell(v, how):
+    """other spellings of an integer that Python's int() reads as the same number"""
+    if how == "zeros":
+        return ("-00" + str(-v)) if v < 0 else "00" + str(v)
+    if how == "plus":
+        return str(v) if v < 0 else "+" + str(v)
+    if how == "ws":
+        return f" {v}\t"
+    if how == "under" and abs(v) >= 10:
+        t = str(abs(v))
+        return ("-" if v < 0 else "") + t[0] + "_" + t[1:]
+    return str(v)
+
+
+def request(a, b, e, now, how="plain"):
+    return ("recv", now, S.inbound(a, "2", [(7, spell(b, how)), (16, spell(e, how))], now_ms=now))
+
+
+PROTOS = {}
+
+
+def set_protocol(impl, kind):
+    """C-family dimension: the protocol dictionary the connection was constructed with.
+    fix44 = FIXProtocol44; custom = a dictionary derived from FIXProtocolBase that defines only beginstring and
+    repeating_groups (no session_message_types, as every dictionary written for the library does);
+    bare = beginstring only.  The session layer must behave the same with all three."""
+    if not PROTOS:
+        from asyncfix.protocol import FIXProtocol44, FIXProtocolBase
+
+        class Custom(FIXProtocolBase):
+            beginstring = "FIX.4.4"
+            repeating_groups = dict(FIXProtocol44.repeating_groups)
+
+        class Bare(FIXProtocolBase):
+            beginstring = "FIX.4.4"
+
+        PROTOS.update(custom=Custom(), bare=Bare())
+    if not hasattr(impl, "c06_fix44"):
+        impl.c06_fix44 = impl.conn._codec.protocol
+    impl.conn._codec.protocol = impl.c06_fix44 if kind == "fix44" else PROTOS[kind]
 
 
 # ---- a journal shared with other sessions ------------------------------------------------------------
@@ -164,19 +210,22 @@ def foreign_rows(impl, a):
         return _FROWS[ck]
     lo, hi = max(1, no - 7), no + 2
     rows = []
+    top = 2 ** 63 - 1
+    hi = min(hi, top)
     for n in {lo, no - 3, no - 2, no - 1, no + 1}:           # below / inside / above any requestable range
-        if n >= 1:
+        if 1 <= n <= top:
             rows.append((n, k2, 1, _fbytes("S2", "T2", n)))   # MessageDirection.OUTBOUND
     for n in {lo, no - 1, no + 1}:
-        if n >= 1:
+        if 1 <= n <= top:
             rows.append((n, k2, 0, _fbytes("T2", "S2", n)))   # INBOUND
     for n in {no - 1, no + 1}:
-        if n >= 1:
+        if 1 <= n <= top:
             rows.append((n, k3, 1, _fbytes("S", "T9", n)))
     rows = sorted(set(rows))
-    counters = [(k2, hi, hi), (k3, no + 1, 0)]
+    c3 = min(no + 1, top)
+    counters = [(k2, hi, hi), (k3, c3, 0)]
     expect = (sorted((k, d, n, m) for (n, k, d, m) in rows),
-              sorted([(k2, "T2", "S2", hi, hi), (k3, "T9", "S", no + 1, 0)]))
+              sorted([(k2, "T2", "S2", hi, hi), (k3, "T9", "S", c3, 0)]))
     if len(_FROWS) > 64:
         _FROWS.clear()
     _FROWS[ck] = (rows, counters, expect)
@@ -218,8 +267,9 @@ def run_impl(impl, case):
     a, sr, declined = make_abs(case)
     steps = []
     rep = case.get("repeat", 1)
+    set_protocol(impl, case.get("proto", "fix44"))
     for i in range(rep):
-        ev = request(a, case["b"], case["e"], T0 + 1000 * (i + 1))
+        ev = request(a, case["b"], case["e"], T0 + 1000 * (i + 1), case.get("spell", "plain"))
         eff, post, before, after = step_shared(impl, a, sr, ev)
         steps.append((a, sr, ev, declined, eff, post, before, after))
         if i + 1 < rep:
@@ -435,29 +485,85 @@ def be_range(n, base=0):
     return range(base - 1, base + n + 3)
 
 
-def enum_cases(alphabet, lengths, states=(17, 12), awaiting_every=1):
+def enum_cases(alphabet, lengths, states=(17, 12), awaiting_every=1, every=1, phase=0):
     idx = 0
     for n in lengths:
         for J in itertools.product(alphabet, repeat=n):
             idx += 1
+            if (idx + phase) % every:
+                continue
             for st in states:
                 if st == 12 and idx % awaiting_every:
                     continue
                 for b in be_range(n):
                     for e in be_range(n):
-                        yield {"journal": list(J), "b": b, "e": e, "state": st, "role": 1 + idx % 2, "k": idx}
+                        yield {"journal": list(J), "b": b, "e": e, "state": st, "role": 1 + idx % 2, "k": idx,
+                               "proto": PROTO_ROT[idx % 5]}
+
+
+PROTO_ROT = ["fix44", "custom", "fix44", "bare", "fix44"]
+MAXS = 2 ** 63 - 1
+# 'round' numbers at which counters and bounds change their number of digits / their machine representation,
+# and numbers that mean something in some FIX version (999999 = "infinity" of FIX 4.0 / 4.1)
+CONSTS = [9, 10, 99, 999, 1000, 9999, 65535, 65536, 99999, 999999, 1000000, 2 ** 31 - 1, 2 ** 31, 2 ** 32,
+          2 ** 53, MAXS]
+
+
+def offset_cases(alphabet, lengths, rng=None, per_len=None, edge_only=False, states=(17,), consts=CONSTS):
+    """MAGNITUDE dimension: a short journal numbered base+1 .. base+n placed so that the constant K is the
+    number before the journal, one of its rows, the last row, or the next number; requests whose BeginSeqNo /
+    EndSeqNo hit K-1, K, K+1 and every number around the journal exactly; the request's own MsgSeqNum near K"""
+    idx = 0
+    for K in consts:
+        for n in lengths:
+            Js = list(itertools.product(alphabet, repeat=n))
+            if per_len is not None and len(Js) > per_len:
+                Js = rng.sample(Js, per_len)
+            for J in Js:
+                for shift in range(0, n + 2):
+                    base = K - shift
+                    if base < 0 or base + n + 1 > MAXS:
+                        continue
+                    idx += 1
+                    if edge_only:
+                        bs = {base + 1, base + n, K - 1, K, K + 1}
+                        es = {0, K - 1, K, K + 1, base + n, base + n + 1}
+                    else:
+                        bs = set(range(base, base + n + 3)) | {K - 1, K, K + 1}
+                        es = bs | {0}
+                    nin = 5 if K >= MAXS - 2 else [5, K, K - 1, K + 1][idx % 4]
+                    for st in states:
+                        for b in sorted(bs):
+                            for e in sorted(es):
+                                yield {"journal": list(J), "b": b, "e": e, "state": st, "role": 1 + idx % 2, "k": idx,
+                                       "base": base, "nin": max(3, nin), "proto": PROTO_ROT[idx % 5], "const": K}
+
+
+def long_cases(rng, count):
+    """SIZE dimension: long journals (30-120 numbers) at small and large offsets"""
+    for i in range(count):
+        n = rng.randint(30, 120)
+        J = [rng.choice(FULL) for _ in range(n)]
+        base = rng.choice([0, 0, 999990, 2 ** 32 - 50])
+        b = base + rng.choice([1, 1, 2, n // 2, n - 1, n])
+        e = rng.choice([0, 0, base + n, base + n - 1, base + n // 2, b, b - 1, 999999])
+        yield {"journal": J, "b": b, "e": e, "state": rng.choice([17, 12]), "role": rng.choice([1, 2]), "base": base,
+               "sr": rng.choice(["letters", "letters", "none"]), "k": i, "repeat": rng.choice([1, 2]),
+               "proto": rng.choice(PROTO_ROT)}
 
 
 def sample_cases(rng, count, maxlen=4):
     for i in range(count):
         n = rng.randint(0, maxlen)
         J = [rng.choice(FULL) for _ in range(n)]
-        base = rng.choice([0, 0, 0, 6, 2 ** 32])
+        base = rng.choice([0, 0, 0, 6, 2 ** 32] + [k - rng.randint(0, n + 1) for k in CONSTS[3:-1]])
         b = rng.choice(list(be_range(n, base)) + [0, -1, 1])
-        e = rng.choice(list(be_range(n, base)) + [0, 0, 0])
+        e = rng.choice(list(be_range(n, base)) + [0, 0, 0, 999999, 9999, 2 ** 31 - 1, 2 ** 63, 2 ** 64])
         yield {"journal": J, "b": b, "e": e, "state": rng.choice([17, 17, 12]), "role": rng.choice([1, 2]), "base": base,
                "sr": rng.choice(["letters", "letters", "letters", "none", "all"]), "k": i,
-               "repeat": rng.choice([1, 1, 1, 2, 3])}
+               "repeat": rng.choice([1, 1, 1, 2, 3]), "proto": rng.choice(PROTO_ROT),
+               "spell": rng.choice(["plain", "plain", "zeros", "plus", "ws", "under"]),
+               "nin": rng.choice([5, 5, 10, 1000, 2 ** 31])}
 
 
 def corpus_cases():
@@ -493,7 +599,9 @@ def chunks(it, n):
 
 class Stats:
     def __init__(self):
-        self.d = {"class": {}, "length": {}, "state": {}, "frames": {}, "slots": {}, "requests_in_sequence": {}}
+        self.d = {"class": {}, "length": {}, "state": {}, "frames": {}, "slots": {}, "requests_in_sequence": {},
+                  "protocol_dictionary": {}, "magnitude_of_next_num_out": {}, "bound_hits_round_constant": {},
+                  "request_spelling": {}, "magnitude_of_next_num_in": {}}
         self.nontrivial = set()
 
     def inc(self, k, v):
@@ -502,16 +610,22 @@ class Stats:
     def note(self, case, steps):
         a = steps[0][0]
         self.inc("class", classes(a, case["b"], case["e"]))
-        self.inc("length", len(case["journal"]))
+        self.inc("length", len(case["journal"]) if len(case["journal"]) < 8 else "30-120")
         self.inc("state", case.get("state", 17))
         self.inc("requests_in_sequence", len(steps))
+        self.inc("protocol_dictionary", case.get("proto", "fix44"))
+        self.inc("magnitude_of_next_num_out", "1e%d" % (len(str(a.next_out)) - 1))
+        self.inc("magnitude_of_next_num_in", "1e%d" % (len(str(a.next_in)) - 1))
+        self.inc("request_spelling", case.get("spell", "plain"))
+        hit = [k for k in CONSTS if case["e"] == k or case["b"] == k]
+        self.inc("bound_hits_round_constant", hit[0] if hit else "-")
         nfr = sum(1 for x in steps[0][4] if x.startswith("W="))
         self.inc("frames", nfr)
         for s in case["journal"]:
             self.inc("slots", s)
         if nfr:
             self.nontrivial.add((tuple(case["journal"]), case["b"], case["e"], case.get("state", 17), case.get("base", 0),
-                                 case.get("sr", "letters")))
+                                 case.get("sr", "letters"), case.get("proto", "fix44")))
 
 
 def run_both(ctx, impl, drv, cases, stats, dis, impl_fail, maxdis=40):
@@ -544,6 +658,21 @@ def run_both(ctx, impl, drv, cases, stats, dis, impl_fail, maxdis=40):
     return n
 
 
+MAG_RULE_T = ("; MAGNITUDE: for each of 16 round constants K (9 .. 999999, 1000000, 2^31-1, 2^31, 2^32, 2^53, sys.maxsize) every "
+              "journal of length <= 2 over the 6 slot classes placed at every offset that makes K the number before the journal, "
+              "one of its rows, its last row or the next number x every BeginSeqNo / EndSeqNo in {numbers around the journal, K-1, "
+              "K, K+1, 0} x ACTIVE (length <= 1 also RESENDREQ_AWAITING), + 12 sampled journals of length 3 (14 kinds) per K with the edge requests; the request's own "
+              "MsgSeqNum at 5 / K-1 / K / K+1; protocol dictionary rotating FIXProtocol44 / custom FIXProtocolBase subclass "
+              "without session_message_types / beginstring-only subclass in ALL enumerations; 300 long journals (30-120 numbers); "
+              "sampled requests with BeginSeqNo / EndSeqNo spelled with leading zeros, '+', white space, '_'")
+MAG_RULE_Q = ("; MAGNITUDE: for each of 16 round constants K (9 .. 999999, 1000000, 2^31-1, 2^31, 2^32, 2^53, sys.maxsize) every "
+              "1-row journal over the 6 slot classes and one sampled journal each of length 2 and 3 (14 kinds), at every offset "
+              "that makes K the number before the journal, one of its rows or the next number, x BeginSeqNo in {first, last, K-1, "
+              "K, K+1} x EndSeqNo in {0, K-1, K, K+1, last, last+1}; protocol dictionary rotating FIXProtocol44 / custom "
+              "FIXProtocolBase subclass without session_message_types / beginstring-only subclass in ALL enumerations; 25 long "
+              "journals (30-120 numbers); sampled requests spelled with leading zeros, '+', white space, '_'")
+
+
 def correspondence(ctx):
     impl, drv = S.Impl(), C.Driver()
     stats, dis, impl_fail = Stats(), [], []
@@ -555,20 +684,30 @@ def correspondence(ctx):
         if ctx.tier == "thorough":
             rule = ("complete: every journal of length <= 3 over the 14 slot kinds x every (b, e) in [-1, len+2]^2 x {ACTIVE, "
                     "RESENDREQ_AWAITING}; every journal of length 4 and 5 over the 6 slot classes (the session type of an 's' slot "
-                    "rotates through all 6, an application slot through plain / 43=N / 43=other / stale-122) x every (b, e) x ACTIVE, and x RESENDREQ_AWAITING for length 4 and every 5th journal "
-                    "of length 5; + 10000 sampled cases (length <= 5, all 14 kinds, counters 1 / 7 / 2^32, filter modes, 1-3 "
+                    "rotates through all 6, an application slot through plain / 43=N / 43=other / stale-122) x every (b, e) x ACTIVE (length 5: every 3rd journal, the third chosen by VERIF_SEED), and x RESENDREQ_AWAITING "
+                    "for length 4 and every 9th journal of length 5; + 8000 sampled cases (length <= 5, all 14 kinds, counters 1 / 7 / 2^32, filter modes, 1-3 "
                     "requests in sequence)")
             n += run_both(ctx, impl, drv, enum_cases(FULL, range(0, 4)), stats, dis, impl_fail)
             n += run_both(ctx, impl, drv, enum_cases(RED, [4]), stats, dis, impl_fail)
-            n += run_both(ctx, impl, drv, enum_cases(RED, [5], awaiting_every=5), stats, dis, impl_fail)
-            n += run_both(ctx, impl, drv, sample_cases(ctx.rng, 10000, 5), stats, dis, impl_fail)
+            n += run_both(ctx, impl, drv, enum_cases(RED, [5], awaiting_every=9, every=3, phase=ctx.seed), stats, dis, impl_fail)
+            n += run_both(ctx, impl, drv, sample_cases(ctx.rng, 8000, 5), stats, dis, impl_fail)
+            n += run_both(ctx, impl, drv, offset_cases(RED, range(0, 2), states=(17, 12)), stats, dis, impl_fail)
+            n += run_both(ctx, impl, drv, offset_cases(RED, [2]), stats, dis, impl_fail)
+            n += run_both(ctx, impl, drv, offset_cases(FULL, [3], ctx.rng, per_len=12, edge_only=True), stats, dis, impl_fail)
+            n += run_both(ctx, impl, drv, long_cases(ctx.rng, 300), stats, dis, impl_fail)
+            rule += MAG_RULE_T
             exhaustive = True
         else:
-            rule = ("complete for journals of length <= 2 over the 14 slot kinds x every (b, e) in [-1, len+2]^2 x {ACTIVE, "
-                    "RESENDREQ_AWAITING}; + 3000 sampled cases (length <= 4, all 14 kinds, counters 1 / 7 / 2^32, filter modes "
+            rule = ("complete for journals of length <= 2 over the 14 slot kinds x every (b, e) in [-1, len+2]^2 x ACTIVE, and x "
+                    "RESENDREQ_AWAITING for length <= 1 and every 3rd journal of length 2; + 3000 sampled cases (length <= 4, all 14 kinds, counters 1 / 7 / 2^32, filter modes "
                     "letters / none / all, 1-3 requests in sequence)")
-            n += run_both(ctx, impl, drv, enum_cases(FULL, range(0, 3)), stats, dis, impl_fail)
+            n += run_both(ctx, impl, drv, enum_cases(FULL, range(0, 2)), stats, dis, impl_fail)
+            n += run_both(ctx, impl, drv, enum_cases(FULL, [2], awaiting_every=3), stats, dis, impl_fail)
             n += run_both(ctx, impl, drv, sample_cases(ctx.rng, 3000, 4), stats, dis, impl_fail)
+            n += run_both(ctx, impl, drv, offset_cases(RED, [1], edge_only=True), stats, dis, impl_fail)
+            n += run_both(ctx, impl, drv, offset_cases(FULL, [2, 3], ctx.rng, per_len=1, edge_only=True), stats, dis, impl_fail)
+            n += run_both(ctx, impl, drv, long_cases(ctx.rng, 25), stats, dis, impl_fail)
+            rule += MAG_RULE_Q
             exhaustive = False
     finally:
         impl.close()
@@ -580,7 +719,7 @@ def correspondence(ctx):
         "evaluations": n,
         "distinct_nontrivial": len(stats.nontrivial),
         "rule": rule + "; corpus/session/c06_*.json and the finding witnesses first, each with 3 requests in sequence; "
-        "distinct_nontrivial = distinct (journal, b, e, state, counter base, filter) whose first reply wrote at least one frame",
+        "distinct_nontrivial = distinct (journal, b, e, state, counter base, filter, protocol dictionary) whose first reply wrote at least one frame",
         "samples": [{"input": d["input"]} for d in dis[:3]] or [{"input": WITNESSES[0]}, {"input": {"journal": ["a", "s0", "x", "h", "a", "h"], "b": 1, "e": 0}}],
         "exhaustive": exhaustive,
         "distribution": stats.d,
@@ -598,11 +737,15 @@ def oracle(ctx, disagreements, broken):
         # always: witnesses of the former finding D9, the corpus, a modest complete scope
         fixed = [dict(c, repeat=c.get("repeat", 3)) for c in WITNESSES + corpus_cases()]
         n += run_both(ctx, impl, None, fixed, stats, [], fails)
-        n += run_both(ctx, impl, None, enum_cases(RED, range(0, 4)), stats, [], fails)
+        ran = hasattr(ctx, "c06_corr_steps")    # the correspondence pass already judged all its implementation results
+        n += run_both(ctx, impl, None, enum_cases(RED, range(0, 3 if ran else 4)), stats, [], fails)
+        n += run_both(ctx, impl, None, offset_cases(["A", "s"], [1], edge_only=True), stats, [], fails)
+        n += run_both(ctx, impl, None, long_cases(ctx.rng, 5), stats, [], fails)
         if broken:
             first = [d["input"] for d in disagreements if isinstance(d.get("input"), dict) and "journal" in d["input"]]
             n += run_both(ctx, impl, None, first, stats, [], fails)
-            n += run_both(ctx, impl, None, enum_cases(RED, [4]), stats, [], fails)
+            n += run_both(ctx, impl, None, enum_cases(RED, [3, 4]), stats, [], fails)
+            n += run_both(ctx, impl, None, offset_cases(RED, range(0, 3)), stats, [], fails)
             n += run_both(ctx, impl, None, sample_cases(ctx.rng, ctx.n(6000, 30000), 5), stats, [], fails)
     finally:
         impl.close()
